@@ -435,3 +435,58 @@ func verifModel_math_Min(x, y float64) float64 {
 func verifModel_template_JSEscape(w io.Writer, b []byte) {
 	w.Write([]byte(verifModel_template_JSEscapeString(string(b))))
 }
+
+// ---- encoding/json: the encoding of a string (json.Marshal with default HTML escaping) ----
+
+func verifHexLower(n byte) byte {
+	if n < 10 {
+		return '0' + n
+	}
+	return 'a' + n - 10
+}
+
+func verifModel_json_quote(s string) string {
+	out := []byte{'"'}
+	for i := 0; i < len(s); {
+		c := s[i]
+		if c < 0x80 {
+			switch {
+			case c == '"':
+				out = append(out, '\\', '"')
+			case c == '\\':
+				out = append(out, '\\', '\\')
+			case c == '\n':
+				out = append(out, '\\', 'n')
+			case c == '\r':
+				out = append(out, '\\', 'r')
+			case c == '\t':
+				out = append(out, '\\', 't')
+			case c == '\b':
+				out = append(out, '\\', 'b')
+			case c == '\f':
+				out = append(out, '\\', 'f')
+			case c < 0x20:
+				out = append(out, '\\', 'u', '0', '0', verifHexLower(c>>4), verifHexLower(c&0xf))
+			case c == '<' || c == '>' || c == '&':
+				out = append(out, '\\', 'u', '0', '0', verifHexLower(c>>4), verifHexLower(c&0xf))
+			default:
+				out = append(out, c)
+			}
+			i++
+			continue
+		}
+		r, n := verifModel_utf8_DecodeRuneInString(s[i:])
+		switch {
+		case r == 0xFFFD && n == 1:
+			out = append(out, '\\', 'u', 'f', 'f', 'f', 'd')
+		case r == 0x2028:
+			out = append(out, '\\', 'u', '2', '0', '2', '8')
+		case r == 0x2029:
+			out = append(out, '\\', 'u', '2', '0', '2', '9')
+		default:
+			out = append(out, s[i:i+n]...)
+		}
+		i += n
+	}
+	return string(append(out, '"'))
+}
